@@ -134,6 +134,49 @@ ParticulateStep(st, up, lat, v, q, sbe, latSed, fpf, chf, conc, pcFine, dt) ==
        ELSE LET c2 == Div(left, wv) IN
             [st |-> <<Mul(c2, v), channel>>, outs |-> <<bed, sbp, Mul(c2, q), Div(fp, dt)>>, flushed |-> Zero]
 
+\* InstreamFineSediment on the rational fragment of its power laws: outflow in {0, 1, 32} (x^1.4 = 0, 1, 128), slope 1,
+\* width and Manning's n in {1, 32} (32^0.4 = 4, 32^0.6 = 8), and a floodplain term whose exponent is 0 (no floodplain
+\* area: nothing settles) or below -750 (everything carried over the banks settles: exp underflows to exactly 0).
+\* params bankFullFlow, fineSedSettVelocityFlood, floodPlainArea, linkWidth, linkLength, linkSlope, bankHeight,
+\* propBankHeightForFineDep, sedBulkDensity, manningsN, fineSedSettVelocity, fineSedReMobVelocity, durationInSeconds;
+\* inputs upstreamMass, lateralMass, reachLocalMass, reachVolume, outflow; states channelStoreFine, totalStoredMass;
+\* outputs loadDownstream, loadToFloodplain, loadToChannelDeposition (a mass), floodplainDepositionFraction, channelDepositionFraction
+TONNES_TO_KG == R(1000)
+P14(x) == CASE x = R(0) -> R(0) [] x = R(1) -> R(1) [] x = R(32) -> R(128)
+P04(x) == CASE x = R(1) -> R(1) [] x = R(32) -> R(4)
+P06(x) == CASE x = R(1) -> R(1) [] x = R(32) -> R(8)
+FineMaxStorage(p) == Mul(Mul(Mul(p[8], p[7]), Mul(p[4], p[5])), Mul(p[9], TONNES_TO_KG))
+\* sediment transport capacity (t/d) for a settling / remobilisation velocity w; slope 1
+FineSTC(p, q, w) == Mul(Div(Mul(Q(1, 10), P14(q)), Mul(Mul(w, P04(p[4])), P06(p[10]))), SECONDS_PER_DAY)
+\* 1 - exp(-x) on the fragment: x = 0 or x >= 750
+OneMinusExpNeg(x) == IF IsZero(x) THEN Zero ELSE One
+FineFlood(p, q, total) ==
+    IF Le(q, p[1]) THEN Zero                               \* at or below bank-full flow nothing goes over the banks
+    ELSE LET qf == Sub(q, p[1]) IN MinR(Mul(Mul(total, Div(qf, q)), OneMinusExpNeg(Div(Mul(p[2], p[3]), qf))), total)
+FineChannel(p, q, totalVolume, total, store) ==
+    IF Le(totalVolume, Zero) THEN Zero
+    ELSE LET loadT == Div(total, TONNES_TO_KG)
+             dep == FineSTC(p, q, p[11])
+             mob == FineSTC(p, q, p[12])
+         IN IF Lt(dep, loadT) THEN MinR(Mul(Sub(loadT, dep), TONNES_TO_KG), Sub(FineMaxStorage(p), store))      \* deposition, limited by the room left
+            ELSE IF Lt(loadT, mob) THEN Neg(MinR(Mul(Sub(mob, loadT), TONNES_TO_KG), store))                        \* remobilisation, limited by the store
+            ELSE Zero
+FineStep(st, up, lat, loc, v, q, p) ==
+    LET dt == p[13]
+        total0 == Add(st[2], Mul(Add(Add(up, lat), loc), dt))
+        tv == Add(v, Mul(q, dt))
+        fp == FineFlood(p, q, total0)
+        total1 == Sub(total0, fp)
+        net == FineChannel(p, q, tv, total1, st[1])
+        total2 == Sub(total1, net)
+        fr(x) == IF Lt(Zero, total0) THEN Div(x, total0) ELSE Zero
+    IN IF Lt(Zero, tv)
+       THEN LET conc == Div(total2, tv) IN
+            [st |-> <<Add(st[1], net), Mul(conc, v)>>, outs |-> <<Mul(conc, q), Div(fp, dt), net, fr(fp), fr(net)>>, flushed |-> Zero]
+       ELSE [st |-> <<Add(st[1], net), Zero>>, outs |-> <<Zero, Div(fp, dt), net, fr(fp), fr(net)>>, flushed |-> total2]
+\* a negative initial channel store means "this proportion of the maximum storage"
+FineInit(cs) == IF Lt(cs.states[1], Zero) /\ ~IsZero(cs.params[1]) THEN <<Mul(Neg(cs.states[1]), FineMaxStorage(cs.params)), cs.states[2]>> ELSE cs.states
+
 ConstituentStep(cs, t, st) ==
     LET p == cs.params  in == cs.inputs  m == cs.model IN
     CASE m = "LumpedConstituentRouting" -> LumpedStep(st[1], in[1][t], in[2][t], in[3][t], in[4][t], p[2], p[3])
@@ -145,6 +188,11 @@ ConstituentStep(cs, t, st) ==
             [st |-> <<Zero>>, outs |-> <<Add(in[1][t], IF t = 1 THEN cs.states[1] ELSE Zero), Zero>>, flushed |-> Zero]
       [] m = "InstreamParticulateNutrient" ->
             ParticulateStep(st, in[1][t], in[2][t], in[3][t], in[4][t], in[5][t], in[6][t], in[7][t], in[8][t], p[1], p[2], p[3])
+      [] m = "InstreamFineSediment" ->
+            IF IsZero(p[1])                      \* no bank-full flow configured: plain lumped transport of everything that enters, the channel store untouched
+            THEN LET r == LumpedStep(st[2], in[1][t], Add(in[2][t], in[3][t]), in[5][t], in[4][t], Zero, p[13]) IN
+                 [st |-> <<st[1], r.st[1]>>, outs |-> <<r.outs[1], Zero, Zero, Zero, Zero>>, flushed |-> r.flushed]
+            ELSE FineStep(st, in[1][t], in[2][t], in[3][t], in[4][t], in[5][t], p)
       [] m = "InstreamCoarseSediment" ->     \* param durationInSeconds; states channelStore, totalStoredMass
             LET incoming == Mul(Add(Add(in[1][t], in[2][t]), in[3][t]), p[1]) IN
             [st |-> <<Add(st[1], Add(st[2], incoming)), Zero>>, outs |-> <<Zero>>, flushed |-> Zero]
@@ -154,18 +202,18 @@ ConstituentIter(cs, t, st, acc) ==
     IF t > Len(cs.inputs[1]) THEN [st |-> st, rows |-> acc.rows, flushed |-> acc.flushed]
     ELSE LET r == ConstituentStep(cs, t, st) IN
          ConstituentIter(cs, t + 1, r.st, [rows |-> Append(acc.rows, r.outs), flushed |-> Add(acc.flushed, r.flushed)])
-ConstituentRun(cs) == ConstituentIter(cs, 1, cs.states, [rows |-> <<>>, flushed |-> Zero])
+InitSt(cs) == IF cs.model = "InstreamFineSediment" THEN FineInit(cs) ELSE cs.states
+ConstituentRun(cs) == ConstituentIter(cs, 1, InitSt(cs), [rows |-> <<>>, flushed |-> Zero])
 \* per-timestep output tuples -> one series per output variable
 Transpose(rows) == [j \in 1..Len(rows[1]) |-> [t \in 1..Len(rows) |-> rows[t][j]]]
 ConstituentModels == {"LumpedConstituentRouting", "ConstituentDecay", "StorageDissolvedDecay", "StorageTrapAll", "InstreamCoarseSediment",
-                      "InstreamParticulateNutrient"}
+                      "InstreamParticulateNutrient", "InstreamFineSediment"}
 
 \* ---- generation models whose kernels are rational for INTEGER power factors (C16) ------------------------
 RECURSIVE IPow(_, _)
 IPow(a, n) == IF n = 0 THEN One ELSE Mul(a, IPow(a, n - 1))
 DAYS_PER_YEAR == Q(1461, 4)
 GRAVITY == Q(981, 100)
-TONNES_TO_KG == R(1000)
 PCT(x) == Div(x, R(100))
 
 \* BankErosion: params riparianVegPercent, maxRiparianVegEffectiveness, soilErodibility, bankErosionCoeff, linkSlope,
@@ -305,7 +353,7 @@ Vals == IF Grid = "small" THEN {R(0), R(2), R(4)} ELSE {R(0), R(1), R(3), R(8), 
 ValsS == Vals \cup {R(-2)}                          \* including a negative value (negative demand)
 Fracs == {R(0), Q(1, 4), Q(1, 2), Q(3, 4), R(1)}
 Loads == {R(0), R(2), R(4)}
-Flows == {R(0), Q(1, 2), R(2)}
+Flows == {R(0), Q(1, 200), Q(1, 2), R(2)}   \* 1/200 m3/s: a trickle BELOW the minimum volume as a rate but above it as a volume when DeltaT = 4
 Vols == {R(0), R(10)}                     \* incl. an empty store (below the minimum volume when there is no outflow)
 Scales == {R(0), Q(1, 2), R(2), R(3)}
 SeriesOf(S, n) == [1..n -> S]
@@ -357,6 +405,23 @@ Cases(m) ==
                pc \in {R(0), Q(1, 2)}, dt \in {R(1), R(4)}, up \in {R(0), R(4)}, lat \in {R(0), R(2)}, v \in Vols, q \in {R(0), R(2)},
                sbe \in {R(0), R(4)}, ls \in {R(0), R(1)}, fpf \in {R(0), Q(1, 2), R(2)}, chf \in {Q(-1, 4), R(0), Q(1, 2), R(1)},
                s0 \in {R(0), R(6)}, s1 \in {R(8)}}
+      [] m = "InstreamFineSediment" ->
+            LET PA(dt) == <<R(0), R(1), R(0), R(1), R(2), R(1), R(1), Q(1, 2), R(2), R(1), R(8640), R(4320), dt>>     \* no bank-full flow: lumped transport
+                \* bank-full 16, no floodplain area, room for 2000 kg, capacities: deposition above P14(q) t, remobilisation below 2 P14(q) t
+                PB(dt) == <<R(16), R(1), R(0), R(1), R(2), R(1), R(1), Q(1, 2), R(2), R(1), R(8640), R(4320), dt>>
+                \* bank-full 16, huge floodplain, room for 640 t, wide rough channel: deposition above P14(q)/32 t, remobilisation below P14(q)/64 t
+                PC(dt) == <<R(16), R(1), R(1000000), R(32), R(20), R(1), R(1), Q(1, 2), R(2), R(32), R(8640), R(17280), dt>>
+                \* outflow exactly AT bank-full flow (32), without and with a floodplain
+                PD(dt) == <<R(32), R(1), R(0), R(1), R(2), R(1), R(1), Q(1, 2), R(2), R(1), R(8640), R(4320), dt>>
+                PE(dt) == <<R(32), R(1), R(1000000), R(1), R(2), R(1), R(1), Q(1, 2), R(2), R(1), R(8640), R(4320), dt>>
+                PSets == {PA(R(1)), PA(R(4)), PB(R(1)), PB(R(4)), PC(R(1)), PC(R(4)), PD(R(1)), PE(R(4))}
+            IN {cs \in {[model |-> m, params |-> p, inputs |-> <<<<up>>, <<lat>>, <<loc>>, <<v>>, <<q>>>>, states |-> <<s0, s1>>] :
+                   p \in PSets, up \in {R(0), R(500), R(1500)}, lat \in {R(0), R(250)}, loc \in {R(0), R(1000)}, v \in Vols, q \in {R(0), R(1), R(32)},
+                   s0 \in {R(0), R(1000), R(2000), Q(-1, 2)}, s1 \in {R(0), R(600)}} : ~(IsZero(cs.params[1]) /\ Lt(cs.states[1], Zero))}
+               \cup
+               {[model |-> m, params |-> p, inputs |-> <<up, <<R(0), R(0)>>, loc, <<R(10), R(10)>>, q>>, states |-> <<s0, s1>>] :
+                   p \in {PA(R(1)), PB(R(1)), PC(R(1))}, up \in SeriesOf({R(0), R(1500)}, 2), loc \in {<<R(0), R(0)>>, <<R(1000), R(0)>>},
+                   q \in SeriesOf({R(1), R(32)}, 2), s0 \in {R(0), R(1000)}, s1 \in {R(0), R(600)}}
       [] m = "BankErosion" ->       \* one timestep; integer power factors 0, 1, 2; not-configured long-term flow; zero flow / zero volume
             {[model |-> m, params |-> <<rv, R(50), R(40), Q(1, 10), Q(1, 100), R(5), R(1), R(2), R(3), R(10), pw, lt, pf, dt>>,
               inputs |-> <<<<fl>>, <<vol>>>>, states |-> <<>>] :
@@ -443,12 +508,12 @@ GenNonNegative == c.model \in GeneratorModels => \A k \in 1..Len(O) : AllT(LAMBD
 \* (+ what the documented minimum-volume flush discards); nothing negative for non-negative inputs
 DT == CASE c.model = "LumpedConstituentRouting" -> c.params[3] [] c.model = "ConstituentDecay" -> c.params[3]
         [] c.model = "StorageDissolvedDecay" -> c.params[1] [] c.model = "InstreamCoarseSediment" -> c.params[1]
-        [] c.model = "InstreamParticulateNutrient" -> c.params[3] [] OTHER -> One
+        [] c.model = "InstreamParticulateNutrient" -> c.params[3] [] c.model = "InstreamFineSediment" -> c.params[13] [] OTHER -> One
 MassIn == CASE c.model = "LumpedConstituentRouting" -> Mul(Add(Add(SumR(In[1]), SumR(In[2])), Mul(c.params[2], R(T(c)))), DT)
             [] c.model = "ConstituentDecay" -> Mul(Add(SumR(In[1]), SumR(In[2])), DT)
             [] c.model = "StorageDissolvedDecay" -> Mul(SumR(In[1]), DT)
             [] c.model = "StorageTrapAll" -> SumR(In[1])
-            [] c.model = "InstreamCoarseSediment" -> Mul(Add(Add(SumR(In[1]), SumR(In[2])), SumR(In[3])), DT)
+            [] c.model \in {"InstreamCoarseSediment", "InstreamFineSediment"} -> Mul(Add(Add(SumR(In[1]), SumR(In[2])), SumR(In[3])), DT)
             \* upstream + lateral + streambank erosion x nutrient concentration
             [] c.model = "InstreamParticulateNutrient" -> Mul(Add(Add(SumR(In[1]), SumR(In[2])), Mul(SumR(In[5]), c.params[1])), DT)
 MassOut == CASE c.model = "LumpedConstituentRouting" -> Mul(SumR(O[1]), DT)                       \* outflowLoad
@@ -456,13 +521,16 @@ MassOut == CASE c.model = "LumpedConstituentRouting" -> Mul(SumR(O[1]), DT)     
              [] c.model = "StorageDissolvedDecay" -> Mul(SumR(O[2]), DT)                           \* outflowMass
              [] c.model = "StorageTrapAll" -> Add(SumR(O[1]), SumR(O[2]))                          \* trapped + outflow
              [] c.model = "InstreamCoarseSediment" -> Mul(SumR(O[1]), DT)
+             \* downstream + floodplain (net deposition on the bed is the change of the channel store, a state)
+             [] c.model = "InstreamFineSediment" -> Mul(Add(SumR(O[1]), SumR(O[2])), DT)
              \* downstream + floodplain (deposition on the bed is the change of the channel store, a state)
              [] c.model = "InstreamParticulateNutrient" -> Mul(Add(SumR(O[3]), SumR(O[4])), DT)
 MassConserved == c.model \in ConstituentModels =>
-    Eq(Add(MassIn, SumR(c.states)), Add(Add(MassOut, SumR(St(c))), ConstituentRun(c).flushed))
+    Eq(Add(MassIn, SumR(InitSt(c))), Add(Add(MassOut, SumR(St(c))), ConstituentRun(c).flushed))
 AllInputsNonNegative == \A j \in 1..Len(In) : \A t \in 1..T(c) : Le(Zero, In[j][t])
 ConstituentNonNegative == (c.model \in ConstituentModels /\ AllInputsNonNegative) =>
-    /\ \A k \in 1..Len(O) : \A t \in 1..T(c) : Le(Zero, O[k][t])
+    \* (the fine-sediment model reports NET bed deposition and its fraction, negative when the bed is remobilised)
+    /\ \A k \in 1..(IF c.model = "InstreamFineSediment" THEN 2 ELSE Len(O)) : \A t \in 1..T(c) : Le(Zero, O[k][t])
     /\ \A k \in 1..Len(St(c)) : Le(Zero, St(c)[k])
 \* the only permitted loss: the flush when the water volume is below the minimum-volume threshold
 FlushOnlyWhenEmpty == c.model \in {"LumpedConstituentRouting", "ConstituentDecay", "StorageDissolvedDecay"} =>
@@ -470,6 +538,19 @@ FlushOnlyWhenEmpty == c.model \in {"LumpedConstituentRouting", "ConstituentDecay
         \E t \in 1..T(c) : LET q == IF c.model = "ConstituentDecay" THEN In[4][t] ELSE In[3][t]
                                  v == IF c.model = "ConstituentDecay" THEN In[5][t] ELSE In[4][t]
                              IN Lt(Add(Mul(q, DT), v), MINIMUM_VOLUME))
+
+\* remobilisation never exceeds what the fine-sediment channel store holds, deposition never exceeds the room left;
+\* the reported fractions are the deposited shares of the mass present before deposition
+RECURSIVE FineStores(_, _)
+FineStores(t, store) == IF t > T(c) THEN <<>> ELSE <<store>> \o FineStores(t + 1, Add(store, O[3][t]))
+FineStoreBounds == (c.model = "InstreamFineSediment" /\ ~IsZero(c.params[1])) =>
+    LET stores == FineStores(1, InitSt(c)[1]) IN
+    \A t \in 1..T(c) : /\ Le(Neg(O[3][t]), stores[t])
+                         /\ (Le(stores[t], FineMaxStorage(c.params)) => Le(Add(stores[t], O[3][t]), FineMaxStorage(c.params)))
+                         /\ Le(Zero, O[4][t]) /\ Le(O[4][t], One) /\ Le(O[5][t], One)
+\* the flush of the fine-sediment model happens only in a reach without any water
+FineFlushOnlyWhenDry == c.model = "InstreamFineSediment" =>
+    (~IsZero(ConstituentRun(c).flushed) => \E t \in 1..T(c) : Lt(Add(Mul(In[5][t], DT), In[4][t]), MINIMUM_VOLUME))
 
 \* C11 Lag: a pure delay line that loses nothing
 LagConserves == c.model = "Lag" => Eq(Add(SumR(O[1]), SumR(St(c))), Add(SumR(c.states), SumR(In[1])))
